@@ -42,6 +42,23 @@ PROVED_LEGS = {"felt-roundtrip", "class-extract", "class-reserialize", "compress
                "decompress-panic", "de-panic", "ser-panic", "compress-panic"}
 
 
+# Constructions outside ser_ok that the serializer accepts and that are known not to come back
+# unchanged (the model reproduces each of them, see the ser/de legs and MANIFEST level_note):
+# usize::MAX doubles as the Fallthrough marker; BigUint::from_bytes_be drops leading NUL bytes and
+# maps "" to 0, which reads back as "\0".
+EXPECTED_LOSSY = re.compile(r"^(target usize::MAX|(type|libfunc) generic id (empty|NUL ab|NUL NUL a))$")
+
+
+def humanize(line):
+    """(B [c0;c1;..]%uint63) chunk encoding of the case files -> hex, for the samples in the evidence."""
+    def val(m):
+        v = 0
+        for i, c in enumerate(x for x in m.group(2).split(";") if x):
+            v += int(c) << (60 * i)
+        return ("-0x%x" if m.group(1) == "ZBn" else "0x%x") % v
+    return re.sub(r"\((B|ZB|ZBn) \[([0-9;]*)\]%uint63\)", val, line)
+
+
 def load_pending_findings(ctx):
     """props/c18.findings.txt: findings reported to the lead, same format as known_findings.txt."""
     p = os.path.join(os.path.dirname(os.path.abspath(__file__)), "c18.findings.txt")
@@ -123,6 +140,18 @@ def run(ctx):
                       "implementation: leg %s%s: %s" % (leg, label, f.get("why", "")),
                       dict(f, replay_cmd="VERIF_SEED=%d ./check C18 --tier %s" % (ctx.seed, ctx.tier)),
                       found_input=True, fingerprint=fp)
+    # accepted boundary programs that do not survive, other than the documented corners of the format
+    seen_b = set()
+    for b in summary.get("boundary_lossy", []):
+        lab = b.get("label", "?")
+        if EXPECTED_LOSSY.match(lab) or lab in seen_b or len(seen_b) >= 4:
+            continue
+        seen_b.add(lab)
+        ctx.violation("sierra_to_felt252s accepts a program that sierra_from_felt252s does not give back "
+                      "(boundary construction '%s', not one of the documented lossy corners)" % lab,
+                      dict(b, leg="boundary-roundtrip",
+                           replay_cmd="VERIF_SEED=%d ./check C18 --tier %s" % (ctx.seed, ctx.tier)),
+                      found_input=True, fingerprint="boundary-roundtrip:%s" % lab)
     oracle_new = len(ctx.violations) - n_before        # oracle failures that are not known findings
     if corr_bad and not oracle_new:
         kinds = sorted({os.path.basename(s).split("_")[0] for s, _ in corr_bad})
@@ -154,7 +183,7 @@ def run(ctx):
         by_leg = {}
         for l in open(sp).read().splitlines():
             if l.strip():
-                by_leg.setdefault(l.split(":")[0], []).append(l[:600])
+                by_leg.setdefault(l.split(":")[0], []).append(humanize(l)[:600])
         for leg in sorted(by_leg):                      # three actual cases of every leg
             n = len(by_leg[leg])
             samples += [by_leg[leg][i] for i in sorted({0, n // 2, n - 1})]
@@ -184,7 +213,7 @@ def run(ctx):
                 "accepted ones), all counted by the harness (distinctness by printed input). ser_cases_in_theorem_domain = cases with ser_ok = true, "
                 "counted inside Coq.",
         "ser_cases_in_theorem_domain": n_ser_ok,
-        "input_distribution": summary,
+        "input_distribution": {k: v for k, v in summary.items() if k != "boundary_lossy"},
         "explored_not_proved": "text round trip (parse . display, display fix-point) and serde_json round "
                                "trip of VersionedProgram are checked on the implementation only "
                                "(oracle_checks legs text-roundtrip, json-roundtrip); CASM equality of "
@@ -192,6 +221,7 @@ def run(ctx):
                                "harness",
         "correspondence_disagreements": len(corr_bad),
         "oracle_failures": len(oracle_bad),
+        "boundary_lossy_labels": sorted({b.get("label", "?") for b in summary.get("boundary_lossy", [])}),
         "samples": samples or ["(no samples: harness did not run)"],
     })
     return ctx.finish(
